@@ -20,6 +20,10 @@ pub static ALLOC_COUNT: AtomicUsize = AtomicUsize::new(0);
 /// child / source / upstream polls in the current op (watchdog)
 pub static POLLS_IN_OP: AtomicUsize = AtomicUsize::new(0);
 
+/// a panic is in flight (set by the panic hook, cleared when the op is over): the panic
+/// runtime's own allocations (payload, exception object) are not the crate's
+pub static PANICKING: AtomicBool = AtomicBool::new(false);
+
 /// byte written over every allocation made from inside the crate, so that a read of
 /// uninitialised memory by a broken crate is at least deterministic
 pub const FILL: u8 = 0xA5;
@@ -33,7 +37,7 @@ static Q_ALIGN: [AtomicUsize; MAX_Q] = [const { AtomicUsize::new(0) }; MAX_Q];
 
 #[inline]
 fn counting() -> bool {
-    IN_CRATE.load(Relaxed) > 0 && IN_CALLBACK.load(Relaxed) == 0
+    IN_CRATE.load(Relaxed) > 0 && IN_CALLBACK.load(Relaxed) == 0 && !PANICKING.load(Relaxed)
 }
 
 pub struct HarnessAlloc;
@@ -209,4 +213,5 @@ pub fn reset_depths() {
     IN_CALLBACK.store(0, Relaxed);
     IN_CHILD_WAKER_CALL.store(0, Relaxed);
     DROPPING_OUT.store(false, Relaxed);
+    PANICKING.store(false, Relaxed);
 }
